@@ -223,4 +223,38 @@ Section LoopTop.
     pose proof (check_same It it_total it_linf it_obj it_feas _ _ _ _ _ EC) as SA. sa SA.
     rewrite Sc, Spd. eapply dist_inv; [|exact R]. unfold I_dist. cbn. rewrite dist_refl. lra.
   Qed.
+  (* ------------------------------------------------------------ C05: a predicate every step result has *)
+  (* if the start has property B and every iterate the step computation returns has it (StepResult clips:
+     C05_compute_xn_in_box), then so have the current iterate and every announced `next`, in every state *)
+  Variable B : It -> Prop.
+  Definition I_box (s : state) : Prop :=
+    B (cur It s) /\ Forall (fun a => B (fst (fst a)) /\ B (snd (fst a))) (announced It s).
+
+  Lemma box_inv c (orc : oracle) clk s0 :
+    (forall i x r d b nx l a k, orc i x r d b = Ans It nx l a k -> B nx) ->
+    I_box s0 -> forall s, reach c orc clk s0 s -> I_box s.
+  Proof.
+    intros Horc H0 s R. induction R as [|s s1 s2 R IH EC EB]; [exact H0|].
+    pose proof (check_same It it_total it_linf it_obj it_feas _ _ _ _ _ EC) as SA. sa SA.
+    destruct (body_spec It it_pdata step_norm _ _ _ _ _ EB) as (nx & l & acc & k & fin & ER & BS).
+    destruct IH as [Bc Ba]. rewrite <- Sc in Bc. rewrite <- Sa in Ba.
+    assert (Bn : B nx).
+    { destruct (resolve_cases It _ _ _ _ _ _ _ _ _ _ ER) as [(-> & _)|(n & E)]; [exact Bc|].
+      eapply Horc. exact E. }
+    destruct BS. unfold I_box. rewrite bs_ann. split.
+    - destruct fin; [destruct (bs_accept eq_refl) as (-> & _)|destruct (bs_reject eq_refl) as (-> & _)]; assumption.
+    - apply Forall_app. split; [exact Ba|]. constructor; [cbn; auto|constructor].
+  Qed.
+
+  Theorem solve_keeps_box fuel c (orc : oracle) clk x0 stt fin :
+    (forall i x r d b nx l a k, orc i x r d b = Ans It nx l a k -> B nx) -> B x0 ->
+    solve fuel c orc clk x0 = Done It stt fin -> I_box fin.
+  Proof.
+    intros Horc H0 H. unfold Loop.solve in H.
+    destruct (run_done It it_total it_linf it_obj it_feas it_pdata step_norm fuel c orc clk _ _ stt fin
+                       (reach_0 _ _ _ _ _ _ _ _ _ _ _) H) as (s' & R & EC).
+    pose proof (check_same It it_total it_linf it_obj it_feas _ _ _ _ _ EC) as SA. sa SA.
+    unfold I_box. rewrite Sc, Sa.
+    eapply box_inv; [exact Horc| |exact R]. unfold I_box. cbn. split; [exact H0|constructor].
+  Qed.
 End LoopTop.
